@@ -6,12 +6,16 @@ import (
 	"context"
 	"crypto/sha256"
 	"encoding/json"
+	"errors"
 	"fmt"
+	"io"
 	"math/rand"
 	"strings"
+	"sync/atomic"
 	"time"
 
 	"github.com/benbjohnson/litestream"
+	"github.com/superfly/ltx"
 
 	"verif/harness/internal/hist"
 	"verif/harness/internal/oracle"
@@ -59,7 +63,37 @@ func cases(run *vf.Run) ([]json.RawMessage, error) {
 		cfg.MaxSyncLTXFiles = 0
 		out = append(out, vf.Spec(spec{Kind: "gen", Seed: vf.SubSeed(run.Seed, "C13-case", i), Ops: 30 + rng.Intn(40), Cfg: cfg}))
 	}
+	// the same histories with faults in between: the local LTX staging area runs out of
+	// space for the duration of one sync, and snapshot uploads fail partway. Once the fault
+	// is over, the next successful sync has to restore the bound (appended: the cases above
+	// keep their indices)
+	nf := 16
+	if run.Tier == "thorough" {
+		nf = 200
+	}
+	for i := 0; i < nf; i++ {
+		rng := rand.New(rand.NewSource(vf.SubSeed(run.Seed, "C13F", i)))
+		cfg := hist.RandomConfig(rng)
+		cfg.PageSize = []int{4096, 512, 1024, 8192, 65536, 2048}[(i+1)%6]
+		cfg.MaxSyncLTXFiles = 0
+		out = append(out, vf.Spec(spec{Kind: "gen-fault", Seed: vf.SubSeed(run.Seed, "C13F-case", i), Ops: 30 + rng.Intn(40), Cfg: cfg}))
+	}
 	return out, nil
+}
+
+// failUpload is a ReplicaClient proxy whose next snapshot-level upload, when armed,
+// consumes part of the stream and fails.
+type failUpload struct {
+	litestream.ReplicaClient
+	arm atomic.Bool
+}
+
+func (p *failUpload) WriteLTXFile(ctx context.Context, level int, minTXID, maxTXID ltx.TXID, r io.Reader) (*ltx.FileInfo, error) {
+	if level == litestream.SnapshotLevel && p.arm.CompareAndSwap(true, false) {
+		_, _ = io.CopyN(io.Discard, r, 700)
+		return nil, errors.New("injected upload fault (snapshot upload broken partway)")
+	}
+	return p.ReplicaClient.WriteLTXFile(ctx, level, minTXID, maxTXID, r)
 }
 
 func threshold(c hist.Config) int {
@@ -88,6 +122,17 @@ func runCase(run *vf.Run, raw json.RawMessage, dir string) *vf.Result {
 		return res
 	}
 	defer e.Close()
+	faulty := s.Kind == "gen-fault"
+	canFill := false
+	upl := &failUpload{}
+	if faulty {
+		if err := e.MountMeta(64); err != nil {
+			res.Count("local_fault_unavailable(mount failed)", 1)
+		} else {
+			canFill = true
+		}
+		e.Wrap = func(c litestream.ReplicaClient) litestream.ReplicaClient { upl.ReplicaClient = c; return upl }
+	}
 	if err := e.StartLS(); err != nil {
 		res.HarnessErr = "open litestream: " + err.Error()
 		return res
@@ -172,6 +217,33 @@ func runCase(run *vf.Run, raw json.RawMessage, dir string) *vf.Result {
 		for i := 0; i < s.Ops; i++ {
 			r := rng.Intn(20)
 			var op string
+			if faulty && rng.Intn(6) == 0 {
+				if canFill && rng.Intn(2) == 0 {
+					op = "sync-while-disk-full"
+					if err := e.MetaFull(true); err != nil {
+						return herr(err)
+					}
+					err := e.LS.Sync(ctx)
+					e.Logf("DB.Sync with the meta file system full err=%v", err)
+					if err != nil {
+						res.Count("syncs_failed_while_disk_full", 1)
+					}
+					if err := e.MetaFull(false); err != nil {
+						return herr(err)
+					}
+				} else {
+					op = "snapshot-upload-fails"
+					upl.arm.Store(true)
+					_, err := e.LS.Snapshot(ctx)
+					upl.arm.Store(false)
+					e.Logf("Snapshot with a failing upload err=%v", err)
+					if err != nil {
+						res.Count("snapshot_uploads_failed", 1)
+					}
+				}
+				ops = append(ops, op)
+				continue
+			}
 			switch {
 			case r < 7:
 				// burst sized around the threshold
